@@ -10,6 +10,7 @@ import (
 	"context"
 	"errors"
 	"fmt"
+	"runtime"
 	"testing"
 	"time"
 
@@ -52,7 +53,7 @@ func c46Gen(t *rapid.T, tier string) any {
 		return op
 	})
 	env := rapid.Custom(func(t *rapid.T) c46Op {
-		op := c46Op{Kind: rapid.SampledFrom([]string{"drop", "drop", "inbound", "sleep", "sleep"}).Draw(t, "k")}
+		op := c46Op{Kind: rapid.SampledFrom([]string{"drop", "drop", "inbound", "flap", "flap", "sleep", "sleep"}).Draw(t, "k")}
 		op.Peer = rapid.IntRange(0, c.NPeers-1).Draw(t, "p")
 		if op.Kind == "sleep" {
 			op.DurMS = rapid.SampledFrom(durs).Draw(t, "d")
@@ -97,6 +98,7 @@ type c46Attempt struct {
 	seq       int64
 	cancelled bool
 	stalls    time.Duration
+	goid      uint64 // goroutine that made the call (ids grow with creation order)
 }
 
 type c46Net struct {
@@ -151,7 +153,7 @@ func (h *c46Host) setConnected(p peer.ID, v bool) {
 }
 
 func (h *c46Host) Connect(ctx context.Context, pi peer.AddrInfo) error {
-	a := c46Attempt{peer: h.idx(pi.ID), at: h.s.Now(), seq: h.s.Seq(), cancelled: ctx.Err() != nil, stalls: h.s.StallTime()}
+	a := c46Attempt{peer: h.idx(pi.ID), at: h.s.Now(), seq: h.s.Seq(), cancelled: ctx.Err() != nil, stalls: h.s.StallTime(), goid: runtime.VerifGoid()}
 	h.attempts = append(h.attempts, a)
 	h.s.Logf("connect p%d cancelled=%v", a.peer, a.cancelled)
 	k := h.ncalls
@@ -218,6 +220,16 @@ func c46Run(t *testing.T, ci any, trace bool) *verifsim.Result {
 		running, stopped := false, false
 		allowance := map[int]int{} // cancelled-context Connect calls still tolerated per peer
 		stopSeq := map[int]int64{} // event seq after which a live Connect for the peer is a violation (0 = none)
+		// stopGoid: id of a goroutine created right after the stop / removal returned.
+		// A tolerated late Connect (cancelled context) comes from a reconnect goroutine
+		// whose timer had fired before; a Connect made by a goroutine that was created
+		// after the stop means a timer fired, or was armed, after it.
+		stopGoid := map[int]uint64{}
+		freshGoid := func() uint64 {
+			ch := make(chan uint64, 1)
+			go func() { ch <- runtime.VerifGoid() }()
+			return <-ch
+		}
 		checked := 0
 		checkAttempts := func() {
 			for ; checked < len(h.attempts); checked++ {
@@ -227,6 +239,10 @@ func c46Run(t *testing.T, ci any, trace bool) *verifsim.Result {
 					return
 				}
 				if q := stopSeq[a.peer]; q != 0 && a.seq > q {
+					if g := stopGoid[a.peer]; g != 0 && a.goid > g {
+						s.Failf("reconnect-timer-fired-after-stop", "Connect (context cancelled: %v) was called for p%d at t=%v by a goroutine that was created after the service had been stopped / the peer removed: a reconnect timer was still armed, or was armed again, after the stop", a.cancelled, a.peer, a.at)
+						return
+					}
 					if !a.cancelled {
 						s.Failf("dial-after-stop", "Connect with a live context was started for p%d at t=%v although the service was stopped / the peer was removed before (event %d > %d)", a.peer, a.at, a.seq, q)
 						return
@@ -260,9 +276,11 @@ func c46Run(t *testing.T, ci any, trace bool) *verifsim.Result {
 							registered[op.Peer] = true
 							if !stopped {
 								stopSeq[op.Peer] = 0
+								stopGoid[op.Peer] = 0
 							} else if stopSeq[op.Peer] == 0 {
 								// added to a stopped service: no dial with a live context, ever
 								stopSeq[op.Peer] = s.Seq()
+								stopGoid[op.Peer] = freshGoid()
 							}
 						}
 					case "remove":
@@ -270,6 +288,7 @@ func c46Run(t *testing.T, ci any, trace bool) *verifsim.Result {
 						if registered[op.Peer] {
 							registered[op.Peer] = false
 							stopSeq[op.Peer] = s.Seq()
+							stopGoid[op.Peer] = freshGoid()
 							allowance[op.Peer]++
 						}
 					case "start":
@@ -288,6 +307,7 @@ func c46Run(t *testing.T, ci any, trace bool) *verifsim.Result {
 								}
 								if stopSeq[i] == 0 {
 									stopSeq[i] = q
+									stopGoid[i] = freshGoid()
 								}
 							}
 						}
@@ -303,12 +323,20 @@ func c46Run(t *testing.T, ci any, trace bool) *verifsim.Result {
 		}
 		s.Go("env", func() {
 			for _, op := range c.Env {
+				// a scheduling point of its own, so that connection events can land
+				// while a dial is parked without simulated time having to pass
+				s.Yield("env.op")
 				s.Logf("env %s p%d %dms", op.Kind, op.Peer, op.DurMS)
 				switch op.Kind {
 				case "drop":
 					h.setConnected(h.ids[op.Peer], false)
 				case "inbound":
 					h.setConnected(h.ids[op.Peer], true)
+				case "flap":
+					// an inbound connection that is gone again at once
+					h.setConnected(h.ids[op.Peer], true)
+					s.Yield("env.flap")
+					h.setConnected(h.ids[op.Peer], false)
 				case "sleep":
 					time.Sleep(time.Duration(op.DurMS) * time.Millisecond)
 				}
